@@ -393,6 +393,14 @@ func proofs(o *vlib.Out, rng *rand.Rand, reps int) {
 				D2[i] = g.NewElement().Add(D2[i], G1)
 				return v.VerifyBatch(A, kA, Bs, D2, pr)
 			})
+			// the statement with one element more, resp. one element less, on the evaluated side
+			rec(obj, "statement-length", func() bool {
+				return v.VerifyBatch(A, kA, Bs, append(append([]group.Element{}, kBs...), g.RandomElement(rd)), pr)
+			})
+			rec(obj, "statement-length", func() bool { return v.VerifyBatch(A, kA, Bs, kBs[:n-1], pr) })
+			rec(obj, "statement-length", func() bool {
+				return v.VerifyBatch(A, kA, append(append([]group.Element{}, Bs...), g.RandomElement(rd)), kBs, pr)
+			})
 			if n >= 2 {
 				rec(obj, "statement-d", func() bool {
 					D2 := append([]group.Element{}, kBs...)
